@@ -49,6 +49,24 @@ Definition unpack2 (n : nat) (bs : list Z) : list Z :=
   let r := unpack2_all bs in
   resize n (if Nat.ltb n (length r) then firstn n r else r).
 
+(* ---- byte-sized and two-byte element types.  onnx_ir does not pack these: Tensor.tobytes is the little-endian array,
+   TensorProtoTensor.numpy reads raw_data with np.frombuffer(dtype '<'), and the int32_data carrier is narrowed with
+   astype(uint16) / astype(uint8) (FLOAT16, BFLOAT16, INT16, UINT16 / FLOAT8E4M3FN, FLOAT8E4M3FNUZ, FLOAT8E5M2,
+   FLOAT8E5M2FNUZ, FLOAT8E8M0, INT8, UINT8, BOOL, and the already packed bytes of the 4-bit and 2-bit types).
+   Elements are bit patterns. *)
+Fixpoint enc16 (l : list Z) : list Z :=
+  match l with [] => [] | v :: r => (v mod 256) :: ((v / 256) mod 256) :: enc16 r end.
+Fixpoint dec16 (bs : list Z) : list Z :=
+  match bs with lo :: hi :: r => (lo + 256 * hi) :: dec16 r | _ => [] end.
+Definition enc8 (l : list Z) : list Z := map (fun v => v mod 256) l.
+Definition dec8 (bs : list Z) : list Z := bs.
+(* int32_data -> payload bytes (TensorProtoTensor.tobytes) *)
+Definition int32_to_bytes16 (l : list Z) : list Z := enc16 (map (fun v => v mod 65536) l).
+Definition int32_to_bytes8 (l : list Z) : list Z := map (fun v => v mod 256) l.
+(* int32_data -> elements (TensorProtoTensor.numpy().view(uintN)) *)
+Definition int32_to_elems16 (l : list Z) : list Z := map (fun v => v mod 65536) l.
+Definition int32_to_elems8 (l : list Z) : list Z := map (fun v => v mod 256) l.
+
 (* correspondence helpers *)
 Fixpoint zs_eqb (a b : list Z) : bool :=
   match a, b with [], [] => true | x :: r, y :: s => Z.eqb x y && zs_eqb r s | _, _ => false end.
